@@ -418,7 +418,7 @@ def run_alloc_forms(rep, facts, alloc, strict_accept=True):
         for sa, bi, t, c in aead_sites(facts, method):
             ikey = sa.body.key
             for a in all_ans(facts):
-                if a.body.key == ikey or not a.body.impl_of or a.body.impl_of.get('self_ty') != sa.body.impl_of.get('self_ty'):
+                if a.body.key == ikey or not a.body.impl_of or not sa.body.impl_of or a.body.impl_of.get('self_ty') != sa.body.impl_of.get('self_ty'):
                     continue
                 if any(((c2.get('resolved') or {}).get('key') == ikey or c2.get('key') == ikey) for _, _, c2 in a.calls() if c2):
                     n += 1
